@@ -63,9 +63,15 @@ func (a RendezvousNodesByScore) Len() int { return len(a.nodes) }
 // Swap swaps two elements.
 func (a RendezvousNodesByScore) Swap(i, j int) { a.nodes[i], a.nodes[j] = a.nodes[j], a.nodes[i] }
 
-// Less is a predicate '<' for a set.
+// Less is a predicate '<' for a set. Nodes whose scores are equal (several
+// zero-weight nodes, or a hash collision) are ordered by label, so that the
+// sorted order never depends on the order in which nodes were added.
 func (a RendezvousNodesByScore) Less(i, j int) bool {
-	return a.nodes[i].Score(a.key) < a.nodes[j].Score(a.key)
+	si, sj := a.nodes[i].Score(a.key), a.nodes[j].Score(a.key)
+	if si != sj {
+		return si < sj
+	}
+	return a.nodes[i].Label < a.nodes[j].Label
 }
 
 // NewRendezvousHash constructs and prepopulates a RendezvousHash object.
